@@ -424,6 +424,7 @@ structure ClsSpec where
   xformCodes : List Int
   guess : GuessKind
   swappable : Bool
+  isSingle : Bool          -- klass.is_single (NIfTI: single-file magic)
   deriving Repr, Inhabited, DecidableEq
 
 /-- `bytes_field.item()`: NumPy strips trailing NULs of an `S` item -/
@@ -527,13 +528,26 @@ def unfixable : CheckId → Bool
 
 /-! ### tying `CF` to the record -/
 
+/-- the first field called `n` -/
+def findFs : List Field → String → Option Field
+  | [], _ => none
+  | f :: fs, n => if f.name = n then some f else findFs fs n
+
+/-- value of the first field called `n` (`hdr[n]` as raw items); `[]` when there is none -/
+def getRawFs : List Field → List (List Nat) → String → List Nat
+  | f :: fs, v :: vs, n => if f.name = n then v else getRawFs fs vs n
+  | _, _, _ => []
+
+/-- `hdr[n] = x`; nothing happens when the layout has no such field -/
+def setRawFs : List Field → List (List Nat) → String → List Nat → List (List Nat)
+  | f :: fs, v :: vs, n, x => if f.name = n then x :: vs else v :: setRawFs fs vs n x
+  | _, vs, _, _ => vs
+
 def getRaw (L : Layout) (vals : List (List Nat)) (name : String) : List Nat :=
-  match L.findIdx? name with
-  | some i => vals.getD i []
-  | none => []
+  getRawFs L.fields vals name
 
 def fieldW (L : Layout) (name : String) : Nat :=
-  match L.find? name with
+  match findFs L.fields name with
   | some f => f.iw
   | none => 0
 
@@ -541,9 +555,7 @@ def getInts (L : Layout) (vals : List (List Nat)) (name : String) : List Int :=
   (getRaw L vals name).map (toInt (fieldW L name))
 
 def setRaw (L : Layout) (vals : List (List Nat)) (name : String) (v : List Nat) : List (List Nat) :=
-  match L.findIdx? name with
-  | some i => vals.set i v
-  | none => vals
+  setRawFs L.fields vals name v
 
 def setInts (L : Layout) (vals : List (List Nat)) (name : String) (v : List Int) : List (List Nat) :=
   setRaw L vals name (v.map (ofInt (fieldW L name)))
@@ -563,18 +575,30 @@ def readCF (L : Layout) (vals : List (List Nat)) : CF where
   dim := ((getInts L vals "dim").drop 1).take 3
   version := (getInts L vals "version").getD 0 0
 
+/-- the layout fields some check can repair -/
+def writtenSlots : List String :=
+  ["sizeof_hdr", "bitpix", "pixdim", "vox_offset", "qform_code", "sform_code", "eol_check", "version"]
+
+/-- the raw items written into slot `n` for the (possibly repaired) record `h`; `pixdim[4:]` is not
+    looked at by any check and keeps its items -/
+def newRaw (L : Layout) (vals : List (List Nat)) (h : CF) (n : String) : List Nat :=
+  if n = "sizeof_hdr" then [ofInt (fieldW L n) h.sizeofHdr]
+  else if n = "bitpix" then [ofInt (fieldW L n) h.bitpix]
+  else if n = "pixdim" then h.qfac :: h.pixdim ++ (getRaw L vals n).drop 4
+  else if n = "vox_offset" then [h.voxOffset]
+  else if n = "qform_code" then [ofInt (fieldW L n) h.qform]
+  else if n = "sform_code" then [ofInt (fieldW L n) h.sform]
+  else if n = "eol_check" then h.eol.map (ofInt (fieldW L n))
+  else if n = "version" then [ofInt (fieldW L n) h.version]
+  else getRaw L vals n
+
+def setSlots (L : Layout) (vals : List (List Nat)) (ns : List String) (g : String → List Nat) :
+    List (List Nat) :=
+  ns.foldl (fun v n => setRaw L v n (g n)) vals
+
 /-- write the (possibly repaired) fields back; only fields some check can write -/
 def writeCF (L : Layout) (vals : List (List Nat)) (h : CF) : List (List Nat) :=
-  let v := setInts L vals "sizeof_hdr" [h.sizeofHdr]
-  let v := setInts L v "bitpix" [h.bitpix]
-  let v := match L.findIdx? "pixdim" with
-           | some _ => setRaw L v "pixdim" (h.qfac :: h.pixdim ++ (getRaw L vals "pixdim").drop 4)
-           | none => v
-  let v := setRaw L v "vox_offset" [h.voxOffset]
-  let v := setInts L v "qform_code" [h.qform]
-  let v := setInts L v "sform_code" [h.sform]
-  let v := setInts L v "eol_check" h.eol
-  setInts L v "version" [h.version]
+  setSlots L vals writtenSlots (newRaw L vals h)
 
 /-- `BatteryRunner(klass._get_checks()).check_fix(hdr)` on a header given by its bytes:
     new binaryblock and the reports -/
@@ -609,6 +633,74 @@ def setZoomsPix (nd : Nat) (zooms pix : List Nat) : List Nat :=
 /-- pixdim of `klass.from_header(src)` for another class of the same float width -/
 def fromHeaderPix (F : FloatFmt) (nd : Nat) (srcPix : List Nat) : List Nat :=
   setZoomsPix nd (getZooms nd srcPix) (setShapePix F nd srcPix)
+
+/-! ### from_header on ALL fields (analyze.py 350-408, nifti1.py _clean_after_mapping 1855-1863)
+
+    not own type:  obj = klass()                                    -- target defaults `dflt`
+                   for key in header.as_analyze_map(): try obj[key] = mapping[key] except (ValueError, KeyError)
+                   obj._clean_after_mapping()                       -- NIfTI targets: magic
+                   obj.set_data_dtype(header.get_data_dtype())      -- datatype, bitpix
+                   obj.set_data_shape(header.get_data_shape())      -- dim, pixdim[ndim+1:] = 1
+                   obj.set_zooms(header.get_zooms())                -- pixdim[1:ndim+1]
+    `cast fs fd v` is NumPy's assignment cast of a field value between the two field types (external);
+    it is applied only when the fields are `castable` (otherwise NumPy raises ValueError and the key is
+    skipped, as for an unknown key). -/
+
+def castable (fs fd : Field) : Bool :=
+  ((fs.kind == .bytes) == (fd.kind == .bytes)) && (fs.kind == .bytes || fs.count == fd.count)
+
+/-- one `obj[key] = mapping[key]` -/
+def copyStep (cast : Field → Field → List Nat → List Nat) (Ld : Layout) (fs : Field) (v : List Nat)
+    (d : List (List Nat)) : List (List Nat) :=
+  match findFs Ld.fields fs.name with
+  | none => d
+  | some fd => if castable fs fd then setRaw Ld d fs.name (cast fs fd v) else d
+
+/-- the loop over the analyze map (the source header's fields in order) -/
+def copyFs (cast : Field → Field → List Nat → List Nat) (Ld : Layout) :
+    List Field → List (List Nat) → List (List Nat) → List (List Nat)
+  | fs :: r, v :: vr, d => copyFs cast Ld r vr (copyStep cast Ld fs v d)
+  | _, _, d => d
+
+/-- the fields the calls after the copy loop write -/
+def overwrittenSlots (niftiTarget : Bool) : List String :=
+  ["datatype", "bitpix", "dim", "pixdim"] ++ (if niftiTarget then ["magic"] else [])
+
+/-- `klass.from_header(src, check=False)` for another class: `g` gives the values the setters write -/
+def fromHeaderVals (cast : Field → Field → List Nat → List Nat) (Ls Ld : Layout) (niftiTarget : Bool)
+    (src dflt : List (List Nat)) (g : String → List Nat) : List (List Nat) :=
+  setSlots Ld (copyFs cast Ld Ls.fields src dflt) (overwrittenSlots niftiTarget) g
+
+inductive Prov where
+  | copied | default | overwritten
+  deriving DecidableEq, Repr
+
+/-- where the value of target field `fd` comes from -/
+def provOf (Ls : Layout) (niftiTarget : Bool) (fd : Field) : Prov :=
+  if fd.name ∈ overwrittenSlots niftiTarget then .overwritten
+  else match findFs Ls.fields fd.name with
+    | some fs => if castable fs fd then .copied else .default
+    | none => .default
+
+/-- `get_data_shape()`: dim[0] == 0 reads as shape (0,) -/
+def getShape (dim : List Int) : List Int :=
+  let nd := (dim.getD 0 0).toNat
+  if nd = 0 then [0] else (dim.drop 1).take nd
+
+/-- `set_data_shape(shape)` on `dim` (8 entries) -/
+def setShapeDim (shape : List Int) : List Int :=
+  (shape.length : Int) :: shape ++ List.replicate (7 - shape.length) 1
+
+/-- provenance of the 8 target pixdim entries: `c` = cast of the source entry, `1` = the constant 1.0.
+    Entry 0 (qfac) is copied; entries 1..ndim come back through get_zooms/set_zooms (for a 0-d source
+    get_zooms() is (1.0,)); entries after ndim are reset to 1.0 by set_data_shape (open finding). -/
+def pixTags (F : FloatFmt) (dim : List Int) (pix : List Nat) : List Char :=
+  let nd0 := (dim.getD 0 0).toNat
+  let nd := (getShape dim).length
+  (List.range 8).map (fun i =>
+    if i = 0 then 'c'
+    else if 1 ≤ i ∧ i ≤ nd ∧ nd0 ≠ 0 then 'c'
+    else if pix.getD i 0 = F.one then 'c' else '1')
 
 /-! ### MGH constructor normalisation (mghformat.py 104-127, 380-385) -/
 
